@@ -23,6 +23,8 @@ TRUSTED = ["CPython 3.12", "spverif.ref.models.split_stream (12 lines)"]
 ASSUMPTIONS = ["single-threaded use of the caller-owned deque (append on the right, as documented)",
                "streams in the conservation check are garbage-free; with garbage only the returned packet list is checked"]
 SCHEDULES = ("every", "every2", "end", "twice")
+# total packet lengths whose length field (total - 7) or total sits on / next to a multiple of 256 ... 32768
+BLOCK_SIZES = tuple(sorted({k * b + d for b in (256, 512, 1024, 4096, 16384, 32768) for k in (1, 2, 3) for d in (-1, 0, 1, 6, 7, 8) if 7 <= k * b + d <= 65542}))
 
 
 def _sp():
@@ -202,7 +204,7 @@ def k_random(ctx, seed):
         total += len(p)
     if r.random() < 0.12:
         # one long packet (length field above one octet / at the 16-bit maximum) somewhere in the stream
-        big = make_packet(r, ids13, r.choice((262, 263, 519, 4103, 65541, 65542)))
+        big = make_packet(r, ids13, r.choice((262, 263, 519, 4103, 65541, 65542) + BLOCK_SIZES))
         pk.insert(r.randrange(len(pk) + 1), big)
     stream = b"".join(pk)
     ncuts = r.choice((0, 1, 2, 3, 8, 30))
